@@ -593,6 +593,10 @@ func c13(tier string) int {
 	run.Set("executions", total)
 	run.Set("deviation_bound", bound)
 	run.Set("max_environment_calls_in_one_cycle", maxPts)
+	// Context leg: the cycle's context ends while the witness is at one of its
+	// storage calls; what the in-process adapter tells the feeder must agree
+	// with what the witness holds once it is quiescent.
+	ctxLeg(run, "C13")
 	run.Set("exhaustive", true)
 	for _, k := range []string{"honest ok", "honest error", "fork error", "wrong-key error"} {
 		if run.HistGet("cycle_outcomes", k) == 0 {
